@@ -1,10 +1,41 @@
+import os
+import sys
+
+sys.path.insert(0, os.path.join(os.path.dirname(os.path.dirname(os.path.abspath(__file__))), "translate"))
+import c18_newtypes  # noqa: E402
+
+
+def c18_newtypes_tr():
+    """runs the translator; its shape observations (never errors) are shown among the assumptions of the evidence"""
+    errs = c18_newtypes.translate()
+    keep = [a for a in SPEC["assumptions"] if not a.startswith("translator note: ")]
+    SPEC["assumptions"][:] = keep + ["translator note: " + n for n in c18_newtypes.NOTES]
+    return errs
+
+
+c18_newtypes_tr.__name__ = "c18_newtypes"
+
 SPEC = {
+    # coq/C18/NamesGen.v is regenerated on every run from duke/src/macros.rs, every make_string_str_like! call site under
+    # duke/src/tree and `mod names` of duke/src/tree/mod.rs: which predicate guards which checked newtype, the excluded
+    # character sets, the special method names, the `[` and `/` literals; and from duke/src/tree/descriptor.rs the letter tables
+    # of read_field_type / write_field_type (letter <-> Type/ArrayType variant, dimension cap, L ; [) and the literals of
+    # get_arguments_size (wide letters, slot counts, initial size, checked_add).  Theorems C18_newtype_guards,
+    # C18_predicate_literals(_model), C18_name_types_guarded, C18_descriptor_tables(_model) pin the expected tables; Run.v looks the guard of every name kind
+    # up in the generated table, so a changed guard also moves the model the correspondence compares with.
+    "translators": [c18_newtypes_tr],
     "trusted": [
-        "C18: the specification side of the theorems is the inductive grammar FieldTypeG/ReturnG/MethodG/ClassNameG of coq/C18/Theory.v (JVMS 4.2.1, 4.2.2, 4.3.2, 4.3.3 transcribed by hand)",
-        "C18: the harness' independent JVMS recogniser (harness/src/c18.rs o_*) is the oracle used to search for failing inputs on the implementation",
+        "C18: the specification side of the theorems is the inductive grammar FieldTypeG/ReturnG/MethodG/ClassNameG of coq/C18/Theory.v (JVMS 4.2.1, 4.2.2, 4.3.2, 4.3.3 transcribed by hand); for get_arguments_size on arbitrary strings the token relation LTok/LenientArgs of coq/C18/Theory2.v (what the function reads, it does not validate)",
+        "C18: the harness' independent JVMS recogniser (harness/src/bin/c18.rs o_*) is the oracle used to search for failing inputs on the implementation",
+        "C18: translate/c18_newtypes.py regenerates coq/C18/NamesGen.v on every run (fail closed: a TryFrom/is_valid of the macro that no longer goes through check_valid, an unchecked From impl, an unreadable invocation, a check_valid that consults none/several/unknown predicates, unresolvable character sets, unreadable letter arms / dimension cap / slot counts in descriptor.rs); it extracts tables and literals, the control flow around them is tied by the correspondence run",
+        "C18: MethodDescriptorSlice::get_arguments_size is pub(crate); it is observed through its only caller, the class writer (count operand of invokeinterface in a one-method class written by duke::write_class and read back from the bytes)",
     ],
     "assumptions": [
         "strings are sequences of code points; the java_string crate's chars() iterator is trusted to yield them",
-        "type values handed to the writers are well-formed (wf_ty): names are binary class names, 1..255 dimensions — what the checked constructors allow",
+        "round-trip theorems: type values handed to the writers are well-formed (wf_ty: binary class names, 1..255 dimensions - what the checked constructors allow); C18_*_roundtrip_iff_wf show this is exactly the set on which parse(write(t)) = t, C18_write_total says what write() does on every other value (its assertion panics iff the class name starts with `[`)",
+        "inner-class / simple-name validity theorems: the input is a valid object class name (ClassNameG), which is what the ObjClassNameSlice type promises; the split/join inverse laws hold for all strings",
+        "note: FieldDescriptor, MethodDescriptor, ReturnDescriptor, the three signature types, RecordName, ModuleName and PackageName are UNCHECKED in the source (check_valid is `Ok(())`, marked TODO): their TryFrom accepts every string. The table row says GAlways and the harness confirms it; the property names only the seven name types, so this is recorded as an observation, not as a finding",
+        "note: the descriptor grammar does not bound the number of parameters; JVMS 4.3.3's limit of 255 argument slots is enforced by get_arguments_size when an invokeinterface is written (C18_args_size_of_method), not by MethodDescriptorSlice::parse",
     ],
+    "stated_not_proved": [],
 }
